@@ -6,7 +6,7 @@ RULE = ("harness c14: CLEAR PATH (4 backends, N in {8,16,32}, ext in {1,2,4,8}, 
         "first or a lower limb, scale 1 and > 1, every table length 2^i <= N plus rejected / non-dividing lengths): 14001 table after "
         "set (all limbs of all ext polynomials + drift), 14002 whole table after set;rotate(k), 14003 limbs of coefficient 0 after "
         "set;rotate(k) for EVERY k in [-2N ext, 2N ext) (both directions; N=8 all radices, N=16 and N=32/ext<=2 at the crate's radix, sampled "
-        "otherwise in the quick tier, everything in the thorough tier) plus k beyond +-2N ext and i64::MIN/MAX; 14004 mod_switch_2n called "
+        "otherwise in the quick tier, everything in the thorough tier) plus k beyond +-2N ext and i64::MIN/MAX; 14005 configuration HISTORIES: every word of length <= 3 (and sampled words of length 4-5) over {set_rotation_direction(Left), set_rotation_direction(Right), set(f1,k1), set(f2,k2)} from a fresh table, observed through rotation_direction() and the verif accessors (limbs, drift); 14021 the same histories followed by a blind rotation (standard / block / extended, 3 messages, decrypted); 14004 mod_switch_2n called "
         "directly: exhaustive first limb x second limb for 2N ext in {2..64}, radix 1..7, both directions, and boundary dictionaries at the "
         "real sizes, every combination of ALL limbs for radix 1..3 and 2..4 limbs; BLIND PATH: 14010 blind rotation with an all-zero mask (exact, noise free, every limb of the GLWE compared, every index at "
         "N=8, standard / block / extended paths, BinaryBlock / BinaryFixed / BinaryProb / ZERO keys); 14020 real keys at the crate's test "
